@@ -127,12 +127,338 @@ func fixedScenarios() []*scn {
 	return out
 }
 
-func scheduleScenarios(c *hx.Ctx) []*scn { return nil }
+
+// ---- failure kinds of one connection attempt (the property's quantifier)
+
+var failKinds = []string{"refuse", "connect-unsendable", "no-connack", "connack-denied", "drop-before-connack",
+	"drop-after-connack", "receive-fails"}
+
+func failPlan(kind string) connPlan {
+	switch kind {
+	case "refuse":
+		return connPlan{refuse: true}
+	case "connect-unsendable":
+		return connPlan{failSend: 1}
+	case "no-connack":
+		return connPlan{connack: "none"}
+	case "connack-denied":
+		return connPlan{connack: "deny"}
+	case "drop-before-connack":
+		return connPlan{connack: "drop"}
+	case "drop-after-connack":
+		return connPlan{dropAtOnce: true}
+	case "receive-fails":
+		return connPlan{failRecv: 1}
+	}
+	panic(kind)
+}
+
+// failures while resubscribing (the attempt comes online, then the resubscribe fails)
+var resubFailKinds = []string{"resub-unsendable", "resub-unanswered", "resub-rejected", "resub-dropped", "resub-recv-fails"}
+
+func resubFailPlan(kind string) connPlan {
+	switch kind {
+	case "resub-unsendable":
+		return connPlan{failSend: 2}
+	case "resub-unanswered":
+		return connPlan{noAck: map[int]bool{1: true}}
+	case "resub-rejected":
+		return connPlan{reject: map[int]bool{1: true}}
+	case "resub-dropped":
+		return connPlan{dropAfter: 1}
+	case "resub-recv-fails":
+		return connPlan{failRecv: 2}
+	}
+	panic(kind)
+}
+
+func seqs(alphabet []string, n int) [][]string {
+	if n == 0 {
+		return [][]string{{}}
+	}
+	var out [][]string
+	for _, p := range seqs(alphabet, n-1) {
+		for _, a := range alphabet {
+			q := append(append([]string{}, p...), a)
+			out = append(out, q)
+		}
+	}
+	return out
+}
+
+func joinNames(l []string) string {
+	o := ""
+	for i, x := range l {
+		if i > 0 {
+			o += "+"
+		}
+		o += x
+	}
+	return o
+}
+
+func scheduleScenarios(c *hx.Ctx) []*scn {
+	var out []*scn
+	add := func(s *scn) { out = append(out, s) }
+	maxLen := 2
+	if c.Thorough() {
+		maxLen = 3
+	}
+
+	// S1: commands queued before Start and while failing; failure sequences before the first successful connect
+	for n := 1; n <= maxLen; n++ {
+		all := seqs(failKinds, n)
+		for i, fs := range all {
+			if n == 3 && i%5 != int(c.Seed)%5 {
+				continue // a fifth of the length-3 sequences per seed
+			}
+			fs := fs
+			for _, clean := range []bool{true, false} {
+				if n >= 2 && clean != (i%2 == 0) {
+					continue
+				}
+				s := mk(fmt.Sprintf("s1-%s-clean%v", joinNames(fs), clean), func(s *scn) {
+					s.via(func() { s.cmd(sub("b", 1)) })
+					s.via(func() { s.cmd(sub("a", 0, "c", 2)) })
+					s.via(func() { s.start() })
+					s.via(func() { s.cmd(pub("t", "while-failing", 1)) })
+					s.waitCount("online", 1)
+					s.via(func() { s.cmd(unsub("c")) })
+					s.via(func() { s.cmd(pub("t", "q2", 2)) })
+					s.waitFuts(5)
+				})
+				s.clean = clean
+				for _, k := range fs {
+					s.plans = append(s.plans, failPlan(k))
+				}
+				add(s)
+			}
+		}
+	}
+
+	// S2: an established set, the connection drops after k requests, failures, then resubscribe and go on
+	for _, k := range []int{1, 2, 3, 4, 5, 6} {
+		for _, afterAck := range []bool{false, true} {
+			for fi, fk := range append([]string{"none"}, failKinds...) {
+				if !c.Thorough() && (fi+k)%3 != int(c.Seed)%3 && fk != "none" {
+					continue
+				}
+				k, fk := k, fk
+				clean := (k+fi)%2 == 0
+				s := mk(fmt.Sprintf("s2-drop%d-ack%v-%s-clean%v", k, afterAck, fk, clean), func(s *scn) {
+					s.start()
+					s.waitCount("online", 1)
+					cmds := []body{sub("m/b", 0), sub("m/a", 1), pub("t", "1", 1), unsub("m/b"), sub("m/c", 2, "m/0", 0), pub("t", "2", 2)}
+					for _, b := range cmds {
+						b := b
+						s.via(func() { s.cmd(b) })
+					}
+					s.waitCount("online", 2)
+					s.via(func() { s.cmd(pub("t", "3", 1)) })
+					s.via(func() { s.cmd(sub("m/z", 0)) })
+					s.waitCount("peerreq", 6)
+					s.waitCount("ack", 3)
+				})
+				s.clean = clean
+				p := connPlan{}
+				if afterAck {
+					p.dropAfterAck = k
+				} else {
+					p.dropAfter = k
+				}
+				s.plans = []connPlan{p}
+				if fk != "none" {
+					s.plans = append(s.plans, failPlan(fk))
+				}
+				s.plans = append(s.plans, connPlan{sp: !clean})
+				add(s)
+			}
+		}
+	}
+
+	// S3: failure during resubscribe (one or two in a row), then success
+	for n := 1; n <= 2; n++ {
+		for i, fs := range seqs(resubFailKinds, n) {
+			if n == 2 && !c.Thorough() && i%3 != int(c.Seed)%3 {
+				continue
+			}
+			fs := fs
+			s := mk("s3-"+joinNames(fs), func(s *scn) {
+				s.start()
+				s.waitCount("online", 1)
+				s.via(func() { s.cmd(sub("r/2", 0)) })
+				s.via(func() { s.cmd(sub("r/1", 1, "r/10", 2)) })
+				s.waitFuts(2)
+				s.via(func() { s.cmd(pub("t", "drop-here", 1)) })
+				s.via(func() { s.cmd(unsub("r/10")) }) // queued while the resubscribes fail
+				s.waitCount("online", 2+len(fs))
+				s.via(func() { s.cmd(pub("t", "after", 1)) })
+				s.waitCount("fut", 5)
+			})
+			s.clean = i%2 == 0
+			s.plans = []connPlan{{dropAfter: 3}}
+			for _, k := range fs {
+				s.plans = append(s.plans, resubFailPlan(k))
+			}
+			add(s)
+		}
+	}
+
+	// S4: the k-th send of a connection fails while dispatching
+	for k := 2; k <= 5; k++ {
+		for _, clean := range []bool{true, false} {
+			k := k
+			s := mk(fmt.Sprintf("s4-send%d-fails-clean%v", k, clean), func(s *scn) {
+				s.start()
+				s.waitCount("online", 1)
+				for _, b := range []body{sub("s/b", 0), pub("t", "0", 0), unsub("s/x"), pub("t", "1", 1), sub("s/a", 2)} {
+					b := b
+					s.via(func() { s.cmd(b) })
+				}
+				s.waitCount("online", 2)
+				s.waitFuts(5)
+			})
+			s.clean = clean
+			s.plans = []connPlan{{failSend: k}}
+			add(s)
+		}
+	}
+
+	// S5: Stop(true|false) at every control point of the supervisor, then Start again
+	points := []string{"backoff", "connecting", "resub-wait", "dispatch-idle", "dispatch-busy", "queued-offline", "not-started"}
+	for _, pt := range points {
+		for _, clear := range []bool{true, false} {
+			pt, clear := pt, clear
+			s := mk(fmt.Sprintf("s5-stop-%s-clear%v", pt, clear), nil)
+			s.clean = clear
+			switch pt {
+			case "backoff", "queued-offline":
+				s.planGen = func(int) connPlan { return connPlan{refuse: s.count("allow") == 0} }
+			case "connecting":
+				s.plans = []connPlan{{connack: "none"}}
+			case "resub-wait":
+				s.plans = []connPlan{{dropAfter: 2}, {noAck: map[int]bool{1: true}}}
+			case "dispatch-busy":
+				s.plans = []connPlan{{holdSend: 3, holdGate: "g"}}
+			}
+			s.script = func(s *scn) {
+				pre := 0
+				switch pt {
+				case "backoff":
+					s.start()
+					s.waitCount("connfail", 2)
+				case "queued-offline":
+					s.start()
+					s.waitCount("connfail", 1)
+					s.via(func() { s.cmd(sub("o/b", 1)) })
+					s.via(func() { s.cmd(pub("t", "off", 1)) })
+					s.via(func() { s.cmd(sub("o/a", 0)) })
+					pre = 3
+				case "connecting":
+					s.start()
+					s.waitCount("sendconnect", 1)
+				case "resub-wait":
+					s.start()
+					s.waitCount("online", 1)
+					s.via(func() { s.cmd(sub("w/1", 0)) })
+					s.waitFuts(1)
+					s.via(func() { s.cmd(pub("t", "x", 1)) })
+					s.waitCount("online", 2)
+					s.waitCount("send", 3)
+					pre = 2
+				case "dispatch-idle":
+					s.start()
+					s.waitCount("online", 1)
+					s.via(func() { s.cmd(sub("i/1", 0)) })
+					s.waitFuts(1)
+					pre = 1
+				case "dispatch-busy":
+					s.start()
+					s.waitCount("online", 1)
+					s.via(func() { s.cmd(sub("h/1", 0)) })
+					s.via(func() { s.cmd(pub("t", "held", 1)) })
+					s.via(func() { s.cmd(pub("t", "behind", 1)) })
+					s.waitCount("send", 2)
+					pre = 3
+					go func() { s.waitCount("stopcall", 1); time.Sleep(3 * time.Millisecond); s.release("g") }()
+				case "not-started":
+					s.via(func() { s.cmd(pub("t", "never-started", 0)) })
+					pre = 1
+				}
+				s.via(func() { s.stop(clear) })
+				if pt != "not-started" {
+					s.via(func() { s.stop(clear) }) // second Stop: not running
+				}
+				s.bump("allow")
+				s.via(func() { s.start() })
+				s.via(func() { s.start() }) // second Start: already running
+				s.via(func() { s.cmd(pub("t", "after-restart", 1)) })
+				s.via(func() { s.cmd(sub("z", 1)) })
+				s.waitCount("peerreq", 2)
+				_ = pre
+			}
+			add(s)
+		}
+	}
+
+	// S6: queue capacity: QueueTimeout while offline; a blocked caller gets the slot the dispatcher frees
+	qt := mk("s6-queue-timeout", func(s *scn) {
+		s.start()
+		s.waitCount("connfail", 1)
+		s.via(func() { s.cmd(sub("q/1", 0)) })
+		s.via(func() { s.cmd(pub("t", "2", 1)) })
+		s.via(func() { s.cmd(pub("t", "3-times-out", 1)) })
+		s.via(func() { s.cmd(unsub("4-times-out")) })
+		s.waitFuts(2)
+		s.bump("allow")
+		s.waitCount("online", 1)
+		s.waitFuts(4)
+		s.via(func() { s.cmd(pub("t", "5", 2)) })
+		s.waitFuts(5)
+	})
+	qt.qcap = 2
+	qt.qtmo = 60 * time.Millisecond
+	qt.planGen = func(int) connPlan { return connPlan{refuse: qt.count("allow") == 0} }
+	add(qt)
+
+	ho := mk("s6-queue-handover", func(s *scn) {
+		s.start()
+		s.waitCount("online", 1)
+		s.via(func() { s.cmd(pub("t", "held-in-send", 1)) })
+		s.waitCount("send", 1)
+		s.via(func() { s.cmd(pub("t", "fills-the-queue", 1)) })
+		go func() { s.waitCount("cmdcall", 3); time.Sleep(5 * time.Millisecond); s.release("g") }()
+		s.via(func() { s.cmd(sub("blocked-until-a-slot-frees", 1)) })
+		s.waitFuts(3)
+	})
+	ho.qcap = 1
+	ho.plans = []connPlan{{holdSend: 2, holdGate: "g"}}
+	add(ho)
+
+	// S7: acknowledgements on a later connection (session kept: ids go on, publishes are re-sent)
+	la := mk("s7-ack-on-later-connection", func(s *scn) {
+		s.start()
+		s.waitCount("online", 1)
+		s.via(func() { s.cmd(sub("l/a", 1)) })       // id 1, never acknowledged on connection 1
+		s.via(func() { s.cmd(pub("t", "p1", 1)) })   // id 2, not acknowledged on connection 1, re-sent
+		s.via(func() { s.cmd(pub("t", "p2", 2)) })   // id 3, PUBREC only ... drop
+		s.via(func() { s.cmd(unsub("l/none")) })     // id 4: the peer drops on it
+		s.waitCount("online", 2)
+		s.waitFuts(3)
+		s.via(func() { s.cmd(pub("t", "p3", 1)) })
+		s.waitFuts(4)
+	})
+	la.clean = false
+	sa := packet.NewSuback()
+	sa.ID = 1
+	sa.ReturnCodes = []packet.QOS{1}
+	la.plans = []connPlan{{noAck: map[int]bool{1: true, 2: true}, dropAfter: 4}, {sp: true, lateAcks: []packet.Generic{sa}}}
+	add(la)
+
+	return out
+}
 
 func randomScenarios(c *hx.Ctx) []*scn { return nil }
 
-var _ = fmt.Sprintf
 var _ = rand.Int
 var _ sync.Mutex
-var _ = time.Now
-var _ packet.ID
